@@ -96,10 +96,12 @@ Proof.
       destruct (Herr Hne) as [Hfl|(-> & -> & Eec)]; [destruct HL' as (_ & K & _); congruence|].
       apply (live_out c (nb + 1) w d nom alts' defer); [eapply Live_mono; [| |exact HLive]; [lia|apply incl_refl]|exact Hsp|exact Hina].
   - (* the real run failed at an I/O action *)
-    destruct Hfail as [[(-> & Hd)|(-> & ps & Hpc & Hmeta & Hgone)]|[(tw1 & Htw1 & _ & Hn0 & -> & Hwr)|
-                       (tw1 & tw' & e1 & ec1 & X' & Htw1 & Hfsc & Hfs & HR1 & _ & HX' & Hsh1 & Hrest)]].
-    + split; [exact Hcl|]. right. split; [discriminate|]. rewrite Hd.
-      apply (live_out c (nb + 1) w d nom alts' defer); [eapply Live_mono; [| |exact HLive]; [lia|apply incl_refl]|exact Hsp|exact Hina].
+    assert (Hnofail : st_failed w0 = false) by apply HL'.
+    destruct Hfail as [(-> & [Hd|[(ps & Hpc & Hmeta & Hgone)|[(ps & ns & Hrc & Hde & Hland & Hfate)|(_ & Hfl0)]]])|[(tw1 & Htw1 & _ & Hn0 & -> & Hwr)|
+                       (tw1 & tw' & e1 & ec1 & X' & Htw1 & Hfsc & Hfs & HR1 & _ & HX' & Hsh1 & -> & Hrest)]]; [| | |congruence| |].
+    + split; [exact Hcl|]. right. split; [discriminate|].
+      apply (failed_unchanged c nb (nb + 1) w d (e_disk e') nom alts' defer defer ltac:(lia) (incl_refl _)); try assumption.
+      rewrite Hd. apply deq_refl.
     + split; [exact Hcl|]. right. split; [discriminate|].
       assert (Hmd' : dk_meta (e_disk e') = Some ps).
       { destruct Hpc as (dm & (_ & M & _) & _ & Hm & _). rewrite M. exact Hm. }
@@ -111,6 +113,39 @@ Proof.
            pose proof HL' as (_ & _ & _ & _ & Hm0 & _). rewrite Hmeta in Hm0. inversion Hm0; subst ps.
            intros Hn. apply (LInv_listed_files c (nb + 1) w0 _ s HL' Hs). rewrite Hn. apply (Hgone t Htinfo Hunsealed).
         -- apply fname_eqb_neq in En. apply (HXg n Hx En ps s Hmd' Hs).
+    + (* the commit of the head truncation was reported as failed and found applied: readers
+         keep the old state, the next Open finds the truncation done *)
+      subst r0. split; [exact Hcl|]. right. split; [discriminate|].
+      assert (Hfl' : dk_files (e_disk e') = dk_files d) by (rewrite Hde; reflexivity).
+      assert (Hst' : dk_stable (e_disk e') = dk_stable d) by (rewrite Hde; reflexivity).
+      pose proof (LInv_NoDup_sh _ _ _ _ HL) as ND.
+      destruct (res_cases nom o1 ROk eq_refl Hres) as [(_ & Hacc)|(K & _)]; [|congruence].
+      split.
+      * right. split; [exact Hcl|]. right. right. split; [reflexivity|]. split; [exact Hrot|].
+        apply (RV_intro2 c (nb + 1) (set_failed w) w (sh d) (e_disk e') nom).
+        -- eapply LInv_mono; [|exact HL]. lia.
+        -- exact Hsp.
+        -- reflexivity.
+        -- reflexivity.
+        -- intros n _. unfold sh, map_files. cbn [dk_files]. rewrite Hfl'. reflexivity.
+        -- cbn [sh map_files dk_stable]. symmetry. exact Hst'.
+        -- rewrite Hfl'. exact ND.
+        -- intros n f p Hl Hp. rewrite Hfl' in Hl. destruct (Hsto n f p Hl Hp) as [(t2 & Ht2 & Hn2 & _)|Hu].
+           ++ left. exists t2. auto.
+           ++ right. intros s Hs. apply (Hu (persistent w) s (live_meta c nb w d HL) Hs).
+      * destruct (landed_post c (nb + 1) _ w0 e' ec ec' X ns
+                    (fun n f p => exists t, tail_info (st_segs w0) = Some t /\ n = name_of t /\ stale_batch c t f p defer) Hext HL' Hland)
+          as (HLs & Hcls & Hsps).
+        { intros n f p Hx Hni Hl Hp. destruct (fname_eqb n (name_of t)) eqn:En; [|right; apply (HXg n Hx); apply fname_eqb_neq; exact En].
+          apply fname_eqb_eq in En. subst n.
+          destruct (Hfate t Htinfo) as [(ti' & Hti' & Hn' & _ & _)|K]; [|contradiction].
+          rewrite Hfl' in Hl. destruct (Hsto (name_of t) f p Hl Hp) as [(t2 & Ht2 & _ & Hsb)|Hu].
+          - rewrite Htinfo in Ht2. inversion Ht2; subst t2. left. exists ti'. split; [exact Hti'|]. split; [symmetry; exact Hn'|].
+            apply (stale_batch_base c t ti' f p defer (name_base _ _ Hn') Hsb).
+          - exfalso. apply (Hu (persistent w) t (live_meta c nb w d HL)); [|reflexivity].
+            cbn [persistent ps_segs]. rewrite (lv_segs _ _ _ _ _ _ _ _ V). apply in_or_app. right. left. reflexivity. }
+        apply (live_RD c (nb + 1) w0 (e_disk e') alts' defer (conj HLs Hcls)).
+        rewrite Hsps, Hsp'. eapply in_alts_app_op; eauto.
     + (* the forced seal failed *)
       split; [exact Hcl|]. right. split; [discriminate|].
       rewrite Htw in Htw1. inversion Htw1; subst tw1.
@@ -140,19 +175,22 @@ Proof.
       destruct HR1 as (Hrel1 & _).
       assert (HXr : forall n, In n (rem (ws_name tw) X) -> In n X /\ n <> name_of t).
       { intros n Hx. apply rem_in in Hx. rewrite Tn in Hx. exact Hx. }
-      destruct Hrest as [(-> & Hd & Hpfx)|(-> & ps & Hpc & Hmeta)].
-      * (* the commit failed: the tail stays sealed *)
+      destruct Hrest as [(Hd & Hpfx)|[(ps & Hpc & Hmeta)|(_ & Hfl0)]]; [| |congruence].
+      * (* the commit failed: the tail stays sealed, the WAL refuses writes *)
         split; [exact Hcl|]. right. split; [discriminate|].
         assert (HLs : LInv c (nb + 1) (set_rot (set_tail w (Some tw')) (Some (ws_index_start tw'))) (sh (e_disk e'))).
         { rewrite Hd, (drel_sh_eq _ _ _ Hrel1). eapply LInv_mono; [|apply LInv_sh; exact HLS]. lia. }
         assert (Hsps : sp_of (sh (e_disk e')) = nom) by (rewrite Hd, (drel_sh_eq _ _ _ Hrel1), (sp_of_sh_clean c nb _ _ HLS); exact HspS).
         assert (HN1 : no_pend (e_disk ec1)) by apply HLS.
+        assert (HS : Seal c (nb + 1) (set_tail w (Some tw')) (e_disk e')).
+        { exists tw'. split; [reflexivity|]. split; [exact Hidx|]. split; [exact Hrot|]. split; [exact HLs|].
+          intros n f p Hl Hp. rewrite Hd in Hl.
+          assert (Hx : In n (rem (ws_name tw) X)) by (apply (drel_stale_ok _ _ _ Hrel1 HN1 n f Hl); congruence).
+          destruct (HXr n Hx) as (Hx1 & Hx2). apply (HXg n Hx1 Hx2). }
         split.
-        -- right. split; [exact Hcl|]. right. left. split; [|exact Hsps].
-           exists tw'. split; [reflexivity|]. split; [exact Hidx|]. split; [exact Hrot|]. split; [exact HLs|].
-           intros n f p Hl Hp. rewrite Hd in Hl.
-           assert (Hx : In n (rem (ws_name tw) X)) by (apply (drel_stale_ok _ _ _ Hrel1 HN1 n f Hl); congruence).
-           destruct (HXr n Hx) as (Hx1 & Hx2). apply (HXg n Hx1 Hx2).
+        -- right. split; [exact Hcl|]. right. right. split; [reflexivity|]. split; [exact Hrot|].
+           apply (RV_ext c (nb + 1) (set_tail w (Some tw'))); [reflexivity|reflexivity|].
+           rewrite <- Hsps. apply RV_of_seal. exact HS.
         -- rewrite Hd. apply (RD_rel c (nb + 1) (e_disk e1) (e_disk ec1) (rem (ws_name tw) X) alts' defer).
            ++ eapply DIs_mono; [|apply HLS]. lia.
            ++ exact HN1.
